@@ -39,6 +39,17 @@ MUTANTS = [
     M('C01-skip-plus-2', 'C01', 'R3/in-cell', (PACK, '.skip(index + 1)', '.skip(index + 2)')),
     M('C01-zero-shells', 'C01', 'R4/', (PACK, '=> 1,', '=> 0,')),
     M('C01-prefilter-radius', 'C01', 'R5/', (PACK, 'self.shape.enclosing_radius().mul(2.).powi(2)', 'self.shape.enclosing_radius().powi(2)')),
+    M('C01-pair-check-cap', 'C01', 'R5/prefilter-sound',
+      (PACK, '''        for transform1 in self.cartesian_positions() {
+            let shape1 = self.shape.transform(&transform1);''', '''        let mut checked = 0;
+        for transform1 in self.cartesian_positions() {
+            let shape1 = self.shape.transform(&transform1);'''),
+      (PACK, '                    let distance = (transform1.position() - transform2.position()).norm_squared();',
+       '''                    checked += 1;
+                    if checked > 512 {
+                        continue;
+                    }
+                    let distance = (transform1.position() - transform2.position()).norm_squared();''')),
     M('C01-prefilter-flipped', 'C01', 'R5/', (PACK, 'if distance <= radius_sq {', 'if distance >= radius_sq {')),
     M('C01-cartesian-into-images', 'C01', 'R3/periodic', (PACK, 'self.cell.periodic_images(position, periodic_range, false)', 'self.cell.periodic_images(transform1, periodic_range, false)')),
     M('C01-identity-image-included-only', 'C01', 'R3/periodic', (PACK, 'periodic_images(position, periodic_range, false)', 'periodic_images(position, periodic_range, true)')),
@@ -50,6 +61,7 @@ MUTANTS = [
     M('C02-lens-sign', 'C02', 'R5/lens', (MSHAPE, 'r.powi(2) * f64::acos(d / r) - d * f64::sqrt(r.powi(2) - d.powi(2))', 'r.powi(2) * f64::acos(d / r) + d * f64::sqrt(r.powi(2) - d.powi(2))')),
     M('C02-vertex-pairing', 'C02', 'R4/radial', (LSHAPE, 'points.iter().zip(points.iter().cycle().skip(1))', 'points.iter().zip(points.iter().cycle().skip(2))')),
     # C03
+    M('C03-image-range-two', 'C03', 'R6/shell-witness', (POT, '.periodic_images(position, 3, false)', '.periodic_images(position, 2, false)')),
     M('C03-sign', 'C03', 'R1/score-is', (POT, 'Some(-sum / self.total_shapes() as f64)', 'Some(sum / self.total_shapes() as f64)')),
     M('C03-no-normalisation', 'C03', 'R1/score-is', (POT, 'Some(-sum / self.total_shapes() as f64)', 'Some(-sum)')),
     M('C03-image-weight-back-to-one', 'C03', 'R2/PotentialState::score/periodic-accumulation', (POT, 'sum += 0.5 * shape1.energy(&shape2);', 'sum += shape1.energy(&shape2);')),
